@@ -364,6 +364,15 @@ func runC12(c *ev.Ctx) {
 		}
 		cases[i] = tqCase{qs}
 	}
+	// every list length 1..400 once (a length is a parameter too)
+	for n := 1; n <= 400; n++ {
+		r := gen.NewRng(gen.Mix(seed, 1214, uint64(n)))
+		qs := make([]float64, n)
+		for j := range qs {
+			qs[j] = r.Float()
+		}
+		cases = append(cases, tqCase{qs})
+	}
 	parallel(len(cases), func(i int) {
 		cs := cases[i]
 		r := gen.NewRng(gen.Mix(seed, 1213, uint64(i)))
